@@ -241,3 +241,85 @@ func polyGE0(p poly, nonneg func(ssa.Value) bool) bool {
 	}
 	return true
 }
+
+// divForm classifies how a count is derived from a size by integer division:
+//   ceil     (a + K - 1) / K
+//   floor    a / K
+//   floor+1  a / K + 1        one too many whenever a is a multiple of K
+//   pred+1   (a - 1) / K + 1  equals ceil only for a >= 1 (gives 1 for a == 0)
+// num is the size a, den the divisor K (values, after widening conversions).
+type divKind int
+
+const (
+	divOther divKind = iota
+	divCeil
+	divFloor
+	divFloorPlus1
+	divPredPlus1
+)
+
+func (k divKind) String() string {
+	return [...]string{"other", "ceil", "floor", "floor+1", "(a-1)/K+1"}[k]
+}
+
+func divFormOf(v ssa.Value) (kind divKind, num, den ssa.Value) {
+	v = stripIntConv(v)
+	plus := int64(0)
+	if base, c := splitAddConst(v); base != v {
+		v, plus = stripIntConv(base), c
+	}
+	q, ok := v.(*ssa.BinOp)
+	if !ok {
+		return divOther, nil, nil
+	}
+	var K ssa.Value
+	switch q.Op {
+	case token.QUO:
+		K = q.Y
+	case token.SHR:
+		K = q.Y // shift amount: handled as its own divisor symbol
+	default:
+		return divOther, nil, nil
+	}
+	pn := polyOf(q.X, 0)
+	var pk poly
+	if q.Op == token.SHR {
+		s, oks := constInt(q.Y)
+		if !oks || s < 0 || s > 30 {
+			return divOther, nil, nil
+		}
+		pk = polyConst(1 << uint(s))
+	} else {
+		pk = polyOf(K, 0)
+	}
+	// numerator minus (K - 1): a single atom => ceil; numerator a single atom => floor; numerator + 1 an atom => pred
+	isAtom := func(p poly) (ssa.Value, bool) {
+		if !p.ok || len(p.t) != 1 {
+			return nil, false
+		}
+		for k, c := range p.t {
+			if c == 1 && k != "" && !strings.Contains(k, "*") {
+				return p.at[k], true
+			}
+		}
+		return nil, false
+	}
+	one := polyConst(1)
+	switch plus {
+	case 0:
+		if a, ok := isAtom(polyAdd(polyAdd(pn, pk, -1), one, 1)); ok {
+			return divCeil, a, K
+		}
+		if a, ok := isAtom(pn); ok {
+			return divFloor, a, K
+		}
+	case 1:
+		if a, ok := isAtom(pn); ok {
+			return divFloorPlus1, a, K
+		}
+		if a, ok := isAtom(polyAdd(pn, one, 1)); ok {
+			return divPredPlus1, a, K
+		}
+	}
+	return divOther, nil, nil
+}
